@@ -1,4 +1,5 @@
 import AcraModel.Censor.MatchGeneralise
+import AcraModel.Censor.MatchWalk
 /-!
 # The converse direction: what a successful match of a placeholder-free pattern means
 
@@ -12,30 +13,6 @@ namespace AcraModel.Censor.Match
 open AcraModel AcraModel.Censor Generated.CensorTable
 
 variable (call : String → Tree → Tree → Bool) (esc : String → Tree → Bool) (q p : Tree)
-
-def Res.isPass : Res → Bool
-  | .pass => true
-  | _ => false
-
-def Res.isRetTrue : Res → Bool
-  | .ret true => true
-  | _ => false
-
-/-- every atom of the step (at every loop index) passes -/
-def cstepPasses : CStep → Bool
-  | .atom a => (atomAt call esc q p none a).isPass
-  | .range o body =>
-    match selO none q p o with
-    | none => false
-    | some l => (List.range l.kids.length).all fun i => body.all fun a => (atomAt call esc q p (some i) a).isPass
-
-/-- some atom of the step (at some loop index) stops the function with `true` -/
-def cstepRetTrue : CStep → Bool
-  | .atom a => (atomAt call esc q p none a).isRetTrue
-  | .range o body =>
-    match selO none q p o with
-    | none => false
-    | some l => (List.range l.kids.length).any fun i => body.any fun a => (atomAt call esc q p (some i) a).isRetTrue
 
 theorem eachAt_inv (i : Nat) : ∀ (body : List AStep) (r : Res), eachAt call esc q p i body = r →
     (r = .pass ∧ body.all (fun a => (atomAt call esc q p (some i) a).isPass) = true)
